@@ -217,3 +217,34 @@ package quotaresource
 //@   loop 1 modifies mapof(cs.allowedReq), smapof(cmOf(csMS(cs)).ctx)
 //@   loop 1 invariant[never-adds] csOK(cs) && csCard(cs) <= old(csCard(cs))
 //@   ensures[never-adds] csCard(cs) <= old(csCard(cs))
+
+// ---------------------------------------------------------------- C02: the configured expiry and sweep interval are the ones used
+//@ func (*ConcurrentConfig).GetRequestExpiration
+//@   prop C02
+//@   requires cc != nil
+//@   modifies nothing
+//@   ensures[configured-expiry] cc.RequestExpirationSec != 0 ==> result == cc.RequestExpirationSec * 1000000000
+//@   ensures[default-expiry] cc.RequestExpirationSec == 0 ==> result == defaultRequestExpiration
+
+//@ func (*ConcurrentConfig).GetGCInterval
+//@   prop C02
+//@   requires cc != nil
+//@   modifies nothing
+//@   ensures[configured-interval] cc.GCIntervalSec != 0 ==> result == cc.GCIntervalSec * 1000000000
+//@   ensures[default-interval] cc.GCIntervalSec == 0 ==> result == defaultGCInterval
+
+// the strategy object is built with the configured maximum, expiry and sweep interval of its own quota
+// (trusted) init builds the system flow description and looks the cluster liveness up; it touches only those two fields
+//@ extern concurrentStrategy).init
+//@   modifies cs.systemFlowData, cs.clusterLiveness, now
+//@ func NewConcurrentStrategy
+//@   prop C02
+//@   mode seq
+//@   requires providerCfg != nil && providerCfg.Strategy != nil && providerCfg.Strategy.Concurrent != nil
+//@   allocates concurrentStrategy, map, contextMemory, memoryState
+//@   modifies heap
+//@   spawn modifies heap
+//@   ensures[configured-limits] result1 == nil ==> typeis(result0, *concurrentStrategy) && result0.(*concurrentStrategy) != nil && result0.(*concurrentStrategy).maxRequestCount == providerCfg.Strategy.Concurrent.MaxRequestCount && result0.(*concurrentStrategy).quotaID == providerCfg.ID
+//@   ensures[configured-expiry] result1 == nil && providerCfg.Strategy.Concurrent.RequestExpirationSec != 0 ==> result0.(*concurrentStrategy).requestExpireTime == providerCfg.Strategy.Concurrent.RequestExpirationSec * 1000000000
+//@   ensures[configured-sweep] result1 == nil && providerCfg.Strategy.Concurrent.GCIntervalSec != 0 ==> result0.(*concurrentStrategy).gcInterval == providerCfg.Strategy.Concurrent.GCIntervalSec * 1000000000
+//@   ensures[starts-empty] result1 == nil ==> result0.(*concurrentStrategy).allowedReq != nil && forall(r, string, !in(r, result0.(*concurrentStrategy).allowedReq))
